@@ -151,7 +151,16 @@ func Run(s *simrt.Sim, a *harness.Args, r *harness.Result) {
 		crashAt = 1 + s.T.Choose(st, 12)
 	}
 	maxRead := []int{0, 0, 1, 7, 64}[s.T.Choose(st, 5)]
+	// one transient read error on the spool disk (e.g. while the body is
+	// being transmitted): the attempt fails, a retry delivers
+	readFault := s.T.Choose(st, 4) == 0
+	// the client's body arrives in a file-backed buffer (as for large
+	// messages at the endpoint) and two messages are submitted concurrently
+	fileBody := s.T.Choose(st, 2) == 1
+	concurrent := s.T.Choose(st, 2) == 1
 	s.MaxSteps = 100000
+	s.PreemptBudget = []int{0, 1, 2, -1}[s.T.Choose("knob", 4)]
+	s.PreemptNum, s.PreemptDen = 1, 3
 
 	domains := []string{"origin.example", "почта.example"}
 	var signer *dkim.Modifier
@@ -168,6 +177,12 @@ func Run(s *simrt.Sim, a *harness.Args, r *harness.Result) {
 	fs := simfs.New()
 	simfs.Use(fs)
 	simfs.MkdirAll(spool, 0o755)
+	simfs.MkdirAll("/buf", 0o755)
+	if readFault {
+		fs.FaultOps = map[string]bool{"read": true}
+		fs.FaultBudget = 1
+		fs.FaultNum, fs.FaultDen = 1, 4
+	}
 	nw := simnet.New()
 	simnet.SetCurrent(nw, "192.0.2.1:40000")
 	defer simnet.SetCurrent(nil, "")
@@ -247,37 +262,55 @@ func Run(s *simrt.Sim, a *harness.Args, r *harness.Result) {
 	if !booted {
 		simrt.Harnessf("boot failed")
 	}
-	prodDone := false
-	s.Spawn("producer", inc, func() {
-		defer func() { prodDone = true }()
+	submit := func(m *emsg) {
 		ctx := context.Background()
-		for _, m := range msgs {
-			hdr, err := textproto.ReadHeader(bufio.NewReader(bytes.NewReader(m.hdrRaw)))
-			if err != nil {
-				simrt.Harnessf("generated header does not parse: %v", err)
-			}
-			meta := &module.MsgMetadata{ID: m.id, OriginalFrom: m.from, SMTPOpts: smtp.MailOptions{UTF8: m.utf8}}
-			// like the SMTP endpoint, hand the pipeline the sender with a
-			// case-folded U-label domain whatever the client sent
-			d, err := pipe.Start(ctx, meta, cleanDomain(m.from))
-			if err != nil {
-				continue
-			}
-			if err := d.AddRcpt(ctx, "rcpt@dest.example", smtp.RcptOptions{}); err != nil {
-				d.Abort(ctx)
-				continue
-			}
-			if err := d.Body(ctx, hdr, buffer.MemoryBuffer{Slice: m.body}); err != nil {
-				s.Logf("producer: %s Body failed: %v", m.id, err)
-				d.Abort(ctx)
-				continue
-			}
-			if err := d.Commit(ctx); err == nil {
-				m.acked = true
-				s.Logf("producer: %s accepted", m.id)
-			}
+		hdr, err := textproto.ReadHeader(bufio.NewReader(bytes.NewReader(m.hdrRaw)))
+		if err != nil {
+			simrt.Harnessf("generated header does not parse: %v", err)
 		}
-	})
+		meta := &module.MsgMetadata{ID: m.id, OriginalFrom: m.from, SMTPOpts: smtp.MailOptions{UTF8: m.utf8}}
+		// like the SMTP endpoint, hand the pipeline the sender with a
+		// case-folded U-label domain whatever the client sent
+		d, err := pipe.Start(ctx, meta, cleanDomain(m.from))
+		if err != nil {
+			return
+		}
+		if err := d.AddRcpt(ctx, "rcpt@dest.example", smtp.RcptOptions{}); err != nil {
+			d.Abort(ctx)
+			return
+		}
+		var body buffer.Buffer = buffer.MemoryBuffer{Slice: m.body}
+		if fileBody {
+			fb, err := buffer.BufferInFile(bytes.NewReader(m.body), "/buf")
+			if err != nil {
+				d.Abort(ctx)
+				return
+			}
+			defer fb.Remove()
+			body = fb
+		}
+		if err := d.Body(ctx, hdr, body); err != nil {
+			s.Logf("producer: %s Body failed: %v", m.id, err)
+			d.Abort(ctx)
+			return
+		}
+		if err := d.Commit(ctx); err == nil {
+			m.acked = true
+			s.Logf("producer: %s accepted", m.id)
+		}
+	}
+	if concurrent {
+		for _, m := range msgs {
+			m := m
+			s.Spawn("producer-"+m.id, inc, func() { submit(m) })
+		}
+	} else {
+		s.Spawn("producer", inc, func() {
+			for _, m := range msgs {
+				submit(m)
+			}
+		})
+	}
 	s.Run(2*time.Hour, func() bool { return crashed })
 	if crashed {
 		crashed = false
@@ -285,7 +318,6 @@ func Run(s *simrt.Sim, a *harness.Args, r *harness.Result) {
 		boot()
 		s.Run(2*time.Hour, nil)
 	}
-	_ = prodDone
 	closed := false
 	if q != nil {
 		qq := q
@@ -317,6 +349,12 @@ func Run(s *simrt.Sim, a *harness.Args, r *harness.Result) {
 	}
 	if maxRead > 0 {
 		ctxSig += "-fragmented"
+	}
+	if s.Stats()["fault_fs_read"] > 0 {
+		ctxSig += "-readerror"
+	}
+	if concurrent && n > 1 {
+		ctxSig += "-concurrent"
 	}
 	verified := 0
 	for _, tx := range mx.Received() {
@@ -363,7 +401,7 @@ func Run(s *simrt.Sim, a *harness.Args, r *harness.Result) {
 		}
 	}
 	s.StatN("verified_at_next_hop", verified)
-	r.Shape = fmt.Sprintf("%s %s/%s srvutf8=%v retry=%v crash=%d frag=%d msgs=%d", algo, hc, bc, srvUTF8, firstFails, crashAt, maxRead, n)
+	r.Shape = fmt.Sprintf("%s %s/%s srvutf8=%v retry=%v crash=%d frag=%d rf=%v fb=%v conc=%v msgs=%d", algo, hc, bc, srvUTF8, firstFails, crashAt, maxRead, readFault, fileBody, concurrent, n)
 	for _, m := range msgs {
 		r.Shape += fmt.Sprintf("[%s u=%v h=%d b=%d]", m.from, m.utf8, len(m.hdrRaw), len(m.body))
 	}
